@@ -162,7 +162,9 @@ def register(R):
         types=dict(tuples='iter[obj]', batch_size='int', num_columns=f'const:{k}', pad='obj' if padded else 'none'), yields='obj', setup=_stream(k),
         modifies=['tuples'],
         requires=['batch_size >= 1', 'tuples.pos == 0'],
-        may_raise=['ValueError'],
+        # no spurious failure: re-batching fails only when the columns of the stream get out of step
+        # (a single column never fails)
+        raises_ensures=({'ValueError': ['exists(lambda t: S(0, t) != S(1, t), 0, len(tuples.src) + 1)']} if k == 2 else {}),
         # sizes and conservation; alignment (equal column lengths); order: row j of emitted batch b is global row
         # b*B + j of its column (and, when padding, only positions past the last row hold the pad value)
         ensures=ENS + ALIGN + final(OUT_ROWS),
